@@ -266,6 +266,7 @@ class Zoo(Protocol):
 
     def p_a1(self, marker: str, n: int, variant: int) -> Stream[PA]: ...
     def p_a2(self, marker: str, n: int, variant: int) -> Stream[PA]: ...
+    def p_a1x(self, marker: str, n: int, variant: int) -> Stream[PA]: ...
     def p_b(self, marker: str, n: int, variant: int) -> Stream[PB]: ...
     def p_f(self, marker: str, n: int, variant: int) -> Stream[PF]: ...
     def p_c1(self, marker: str, n: int, variant: int) -> Stream[PC]: ...
@@ -305,6 +306,10 @@ class ZooImpl:
 
     def p_a2(self, marker: str, n: int, variant: int) -> Stream[PA]:
         return _prod(PA, "p_a2", marker, n, None)
+
+    def p_a1x(self, marker: str, n: int, variant: int) -> Stream[PA]:
+        # name of which "p_a1" is a proper prefix (length / prefix confusions in a method binding)
+        return _prod(PA, "p_a1x", marker, n, None)
 
     def p_b(self, marker: str, n: int, variant: int) -> Stream[PB]:
         return _prod(PB, "p_b", marker, n, None)
@@ -358,6 +363,7 @@ class ZooImpl:
 METHODS: dict[str, dict[str, Any]] = {
     "p_a1": {"kind": "producer", "state": ["PA"], "cs": [None]},
     "p_a2": {"kind": "producer", "state": ["PA"], "cs": [None]},
+    "p_a1x": {"kind": "producer", "state": ["PA"], "cs": [None]},
     "p_b": {"kind": "producer", "state": ["PB"], "cs": [None]},
     "p_f": {"kind": "producer", "state": ["PF"], "cs": [None]},
     "p_c1": {"kind": "producer", "state": ["PC"], "cs": ["CS1"]},
